@@ -46,7 +46,6 @@ from ..impl import mx, close_all, quiet, err_kind
 KEY_TWO_FAILED = "C14-failed-dir-save-then-save"
 KEY_LOAD_RENAME = "C14-failed-load-renames-existing"
 KEY_ZIP_TRUNC = "C14-zip-reopen-error-truncates-archive"
-KEY_RETRY_CLOSE = "C14-copyfile-retry-after-failed-close-drops-members"
 NSLOTS = 5          # path, _BAK1 .. _BAK4 (the last one must never exist)
 
 _sys = mx.core.mxsys
@@ -343,9 +342,9 @@ def tokens_of(trace, complete, fmt=None):
     path; `W` the last one), zip format: `move`;  both: `t` (an operation in the temporary directory),
     `c` / `r` (zipfile.ZipFile opens a new or still empty / an already filled archive for update: an
     OSError of that open is swallowed by zipfile's file-mode retry, which for `r` truncates), `p` (an
-    operation under a handler that absorbs one PermissionError and tries again: ZipFile.write inside
-    ziputil.copy_file's GH82 loop, the unlink/rmdir of TemporaryDirectory.cleanup), `q` (the close of
-    the archive inside that loop: the next attempt finds an archive without central directory)."""
+    operation under a handler that absorbs one PermissionError and tries again: the unlink/rmdir of
+    TemporaryDirectory.cleanup).  ziputil.copy_file's GH82 loop retries the opening of the archive only
+    (an `r`; since 14fa119): its ZipFile.write and close are plain `t` - see `hot_indices`."""
     zip_targets = set()
     for ent in trace:
         for a in ent[1:]:
@@ -354,7 +353,6 @@ def tokens_of(trace, complete, fmt=None):
     toks = []
     phase = "rot"
     opens = {}
-    in_copy = False          # between ZipFile.write(src, member) and the close of that ZipFile
     moved = False
     for ent in trace:
         name, args = ent[0], ent[1:]
@@ -391,12 +389,6 @@ def tokens_of(trace, complete, fmt=None):
             # an archive that has members
             opens[a0] = opens.get(a0, 0) + 1
             toks.append("r" if _is_tmp_archive(a0) and opens[a0] > 2 else "c")
-        elif name == "zip.write" and a0.startswith("zip:") and _is_tmp_archive(a0[4:]):
-            in_copy = True
-            toks.append("p")
-        elif name == "zip.close" and in_copy and a0.startswith("zip:") and _is_tmp_archive(a0[4:]):
-            in_copy = False
-            toks.append("q")
         elif in_P or (name.startswith("pickle") and fmt == "dir"):
             toks.append("w")
         elif in_T or (name.startswith("pickle") and fmt == "zip"):
@@ -406,6 +398,28 @@ def tokens_of(trace, complete, fmt=None):
     if complete and toks and toks[-1] == "w":
         toks[-1] = "W"
     return toks
+
+
+def hot_indices(trace):
+    """the operations of ziputil.copy_file (file -> archive) on the temporary archive: the opening, the
+    ZipFile.write of the IO data file and the close - next to a retry loop for PermissionError, so every
+    fault policy is tried at each of them whatever the tier"""
+    hot = set()
+    last_open = None
+    in_copy = False
+    for i, ent in enumerate(trace):
+        name, a0 = ent[0], (ent[1] if len(ent) > 1 else "")
+        if name == "open:w+" and _is_tmp_archive(a0):
+            last_open = i
+        elif name == "zip.write" and a0.startswith("zip:") and _is_tmp_archive(a0[4:]):
+            in_copy = True
+            hot.add(i)
+            if last_open is not None:
+                hot.add(last_open)
+        elif name == "zip.close" and in_copy and a0.startswith("zip:") and _is_tmp_archive(a0[4:]):
+            in_copy = False
+            hot.add(i)
+    return hot
 
 
 def compress(toks):
@@ -425,7 +439,7 @@ def sizes_of(toks):
     nrm = sum(1 for t in toks if t.startswith("rm"))
     if "move" in toks:
         k = toks.index("move")
-        n1 = "".join(t for t in toks[:k] if t in ("t", "c", "r", "p", "q")) or "-"
+        n1 = "".join(t for t in toks[:k] if t in ("t", "c", "r")) or "-"
         n2 = sum(1 for t in toks[k + 1:] if t == "p")
     else:
         body = [t for t in toks if t in ("w", "W", "t", "c")]
@@ -437,7 +451,7 @@ def sizes_of(toks):
 POLCODE = {("os", "once"): "os1", ("os", "persist"): "osP", ("perm", "once"): "perm1", ("perm", "persist"): "permP",
            # a FileNotFoundError is an OSError that no handler of the save path singles out
            ("notfound", "once"): "os1", ("notfound", "persist"): "osP"}
-SENSITIVE = ("c", "r", "p", "q", "move")      # tokens at which the outcome depends on the policy
+SENSITIVE = ("c", "r", "p", "move")      # tokens at which the outcome depends on the policy
 
 
 def policy_allowed(entry, tok, exc, policy):
@@ -448,15 +462,10 @@ def policy_allowed(entry, tok, exc, policy):
 
 
 def trunc_key_of(tok, exc, policy):
-    """the recognised triggers of the two archive findings: a transient error at a re-opening of the
-    temporary archive (swallowed by zipfile, whose next file mode truncates), a transient
-    PermissionError at the close of the archive inside copy_file's retry loop"""
-    if policy != "once":
-        return None
-    if tok == "r":
+    """the recognised trigger of the archive finding: a transient error at a re-opening of the
+    temporary archive (swallowed by zipfile, whose next file mode truncates)"""
+    if policy == "once" and tok == "r":
         return KEY_ZIP_TRUNC
-    if tok == "q" and exc == "perm":
-        return KEY_RETRY_CLOSE
     return None
 
 
@@ -574,7 +583,7 @@ def check_save(world, out, hist_txt, pre, post, raised, fmt, g, backup, fired_af
 
 # ----------------------------------------------------------------------------- histories of saves
 
-def choose_indices(ctx, n, toks, rng):
+def choose_indices(ctx, n, toks, rng, hot=()):
     """fault points of the enumerated save: all (thorough) or a spread (quick)"""
     if ctx.tier == "thorough" or n <= 14:
         return list(range(n))
@@ -584,12 +593,11 @@ def choose_indices(ctx, n, toks, rng):
         k = toks.index("move")
         keep |= {k - 1, k, k + 1}
     # the operations under a retry handler / a swallowing caller: the first and the last of each kind,
-    # every ZipFile.write / close of copy_file's loop (one pair per IO data file)
+    # every opening / ZipFile.write / close of copy_file (one triple per IO data file)
     for kind in ("c", "r"):
         idx = [i for i, t in enumerate(toks) if t == kind]
         keep |= set(idx[:1] + idx[-1:])
-    move_at = toks.index("move") if "move" in toks else n
-    keep |= {i for i, t in enumerate(toks) if t in ("p", "q") and i < move_at}
+    keep |= set(hot)
     keep.add(rng.randrange(n))
     return sorted(i for i in keep if 0 <= i < n)
 
@@ -597,12 +605,12 @@ def choose_indices(ctx, n, toks, rng):
 ALL_POLICIES = [("os", "once"), ("os", "persist"), ("perm", "once"), ("perm", "persist")]
 
 
-def choose_policies(ctx, entry, tok, rng, after_move=False):
+def choose_policies(ctx, entry, tok, rng, after_move=False, hot=False):
     """the ways the chosen operation fails: always a transient OSError; where the calling code has a
     handler (zipfile's file-mode retry, copy_file's GH82 loop, shutil.move, TemporaryDirectory) every
     combination of error class and persistence; elsewhere one more combination, drawn (quick: for a third
     of the operations)"""
-    if tok in SENSITIVE:
+    if tok in SENSITIVE or hot:
         pols = list(ALL_POLICIES)
         # (a FileNotFoundError in tempdir.cleanup() is ignored by TemporaryDirectory: standard library,
         # not modelled - the class is not injected there)
@@ -741,9 +749,11 @@ def run_save_history(ctx, world, hist, out, stats, lines, rng):
         # the enumerated save
         record(None, "before", None, post, None)
         lines.append(("back", "ok", None))
-        for k in choose_indices(ctx, n, toks, rng):
+        hot = hot_indices(full)
+        stats["copy_file_ops"] += len(hot)
+        for k in choose_indices(ctx, n, toks, rng, hot):
             combos = [("before", e, pl) for e, pl in choose_policies(
-                ctx, full[k], toks[k], rng, after_move=move_at is not None and k > move_at)]
+                ctx, full[k], toks[k], rng, after_move=move_at is not None and k > move_at, hot=k in hot)]
             if full[k][0].startswith("open:w") and (ctx.tier == "thorough" or rng.random() < 0.3):
                 combos.append(("after", "os", "once"))
             for variant, exc, policy in combos:
